@@ -321,16 +321,31 @@ def run_cases(ctx, binp, prop, shards=8, extra=None, budget_s=900, env=None):
                 gores[int(a)] = b
     # a HANG / CRASH seen under load is re-checked alone with a 10x time limit before it is believed
     suspicious = [i for i in sorted(gores) if gores[i].startswith(("HANG", "CRASH"))][:40]
-    for i in suspicious:
+    # (the first 4 one at a time; any further ones 4 at a time — the machine has 16 cores and nothing else of
+    # this check is running at that point — so a tree on which many cases really hang is not re-checked for an hour)
+    slock = threading.Lock()
+
+    def recheck(i):
         try:
             p = subprocess.run([binp, prop, "-tmult", "10", "-one", cases[i]] + extra, cwd=ctx.work, env=GOENV,
                                stdout=subprocess.PIPE, stderr=subprocess.STDOUT, text=True, errors="replace", timeout=600)
             lines = [l for l in p.stdout.splitlines() if l.strip()]
             if p.returncode == 0 and lines and not lines[0].startswith(("HANG", "PANIC")):
-                stats["rechecked_alone_ok"] = stats.get("rechecked_alone_ok", 0) + 1
-                gores[i] = lines[0]
+                with slock:
+                    stats["rechecked_alone_ok"] = stats.get("rechecked_alone_ok", 0) + 1
+                    gores[i] = lines[0]
         except subprocess.TimeoutExpired:
             pass
+
+    for i in suspicious[:4]:
+        recheck(i)
+    rest = suspicious[4:]
+    for k in range(0, len(rest), 4):
+        ths = [threading.Thread(target=recheck, args=(i,)) for i in rest[k:k + 4]]
+        for t in ths:
+            t.start()
+        for t in ths:
+            t.join()
     return cases, gores, stats, results
 
 
